@@ -33,6 +33,7 @@ def run(ctx, rep):
     helpers(ctx, rep)
     narrow_casts(ctx, rep)
     racelaps_table(ctx, rep)
+    small_durations(ctx, rep)
 
 
 def helpers(ctx, rep):
@@ -249,3 +250,94 @@ def racelaps_table(ctx, rep):
         rep.check("R15.3", "encode:laps", "laps" not in wrong, wrong.get("laps", ""), b.loc(), sample={"evaluated": 1101 + len(big)})
         rep.check("R15.3", "encode:hours", "hours" not in wrong, wrong.get("hours", ""), b.loc(), sample={"evaluated": 1101 + len(big)})
     rep.floor("R15.3", 7)
+
+
+SMALL_W = "<insim::insim::small::SmallType as binrw::binwrite::BinWrite>::write_options"
+
+
+def small_durations(ctx, rep):
+    """R15.4: the hand-written IS_SMALL writer, as a decision table on MIR (module helpers and closures inlined), evaluated
+    for every duration-carrying variant and a boundary-biased set of millisecond counts: what is written as UVal must be
+    floor(ms / unit) when that fits 32 bits, and otherwise the call must fail before anything is written."""
+    import tabeval
+    from mirq import inline_calls, expand_adaptors
+    b = ctx.mir.body(SMALL_W)
+    en = ctx.mir.enums.get("insim::insim::small::SmallType")
+    if b is None or en is None:
+        rep.fail("R15.4", "small:found", "impl BinWrite for SmallType not found")
+        return
+    rep.fn(SMALL_W)
+    local = lambda d: d.startswith("insim::insim::small::") or d.startswith("<insim::insim::small::")
+    b = inline_calls(b, local, depth=4)
+    b = expand_adaptors(b)
+    b = inline_calls(b, local, depth=2)
+    try:
+        rows = b.decision_rows()
+    except Exception as e:
+        rep.fail("R15.4", "small:table", "decision table of the SmallType writer not extractable (%s)" % e, b.loc())
+        return
+    idx = {v["name"]: v["idx"] for v in en["variants"]}
+    units = {k: {"ms": 1, "cs": 10}[u.rstrip("?")] for k, u in ctx.spec.smallunit.items()}
+    cur = {}
+
+    def leaf(o, m):
+        if o[0] == "discr" and strip(o[1]) == ("arg", 1):
+            return idx[cur["k"]]
+        return None
+
+    def strip(o):
+        while isinstance(o, tuple) and o and o[0] in ("ref", "deref"):
+            o = o[1]
+        return o
+
+    def call(d, rd, args, m):
+        if (d or "").endswith("Duration::as_millis"):
+            return cur["ms"]
+        return None
+    model = tabeval.Model(ctx, b, None, local_prefix="insim::insim::small::", extra_leaf=leaf, extra_call=call)
+    probes = [0, 1, 9, 10, 11, 15, 19, 25, 99, 1000, 12345, 2 ** 32 - 1, 2 ** 32, 2 ** 32 + 5, 10 * (2 ** 32) - 1, 10 * (2 ** 32), 10 * (2 ** 32) + 9,
+              2 ** 64 - 1, 2 ** 64, 2 ** 64 + 15, 2 ** 70 + 7]
+    for var in sorted(idx):
+        if var.upper() not in units:
+            continue
+        S = units[var.upper()]
+        bad = None
+        undecided = None
+        for ms in probes:
+            cur["k"], cur["ms"] = var, ms
+            model.ev.reset()
+            try:
+                matched = model.ev.matching_rows(rows)
+                outs = set()
+                for r in matched:
+                    written = []
+                    for c in r[0]:
+                        o = c[4]
+                        if o[0] == "discr" and o[1][0] == "call" and (o[1][1] or "").endswith("Try::branch") and o[1][3] and o[1][3][0][0] == "call" \
+                                and (o[1][3][0][1] or "").endswith("BinWrite::write_options"):
+                            w = o[1][3][0]
+                            key = str(w[4])
+                            if key not in [x[0] for x in written]:
+                                written.append((key, model.ev.ev(w[3][0])))
+                    kind = r[1][1]
+                    if kind.startswith("call:") and "from_residual" in kind:
+                        kind = "Err"
+                    outs.add((kind, tuple(v for _, v in written)))
+            except tabeval.Unknown as e:
+                undecided = "%s, %d ms: %s" % (var, ms, e)
+                break
+            q = ms // S
+            want = ("Ok", (idx_disc(ctx, var), q)) if q < 2 ** 32 else ("Err", ())
+            if outs != {want}:
+                bad = bad or "%d ms is written as %s; rounding down to the %d ms unit (or refusing what does not fit 32 bits) gives %s" % (ms, sorted(outs, key=str), S, want)
+        if undecided:
+            rep.fail("R15.4", "SmallType::%s:write" % var, "the writer's decision table could not be evaluated (%s)" % undecided, b.loc())
+        else:
+            rep.check("R15.4", "SmallType::%s:write" % var, bad is None, bad or "", b.loc(), sample={"variant": var, "unit_ms": S, "probes": len(probes)})
+    rep.floor("R15.4", 5)
+
+
+def idx_disc(ctx, var):
+    from props.handpairs import disc_tables
+    rd, wr, _e = disc_tables(ctx, "SmallType")
+    return dict(wr).get(var)
